@@ -129,3 +129,20 @@ extern "C" void qsort(void *base, size_t n, size_t size, int (*cmp)(const void *
 	}
 	free(tmp);
 }
+
+/* <stdlib.h> carries an extern-inline bsearch; the out-of-line symbol is defined under an asm label */
+extern "C" void *vf_bsearch_model(const void *key, const void *base, size_t n, size_t size, int (*cmp)(const void *, const void *)) __asm__("bsearch");
+extern "C" void *vf_bsearch_model(const void *key, const void *base, size_t n, size_t size, int (*cmp)(const void *, const void *))
+{
+	const char *b = (const char *) base;
+	size_t lo = 0, hi = n;
+	while (lo < hi)
+	{
+		size_t mid = lo + (hi - lo) / 2;
+		const void *p = b + mid * size;
+		int c = cmp(key, p);
+		if (c == 0) return (void *) p;
+		if (c < 0) hi = mid; else lo = mid + 1;
+	}
+	return 0;
+}
